@@ -45,7 +45,9 @@ def replay(recs):
             exp = np.array(r["inside"])
             site = f"Segment.contains/{dim}D" + ("/ray" if r["ray"] else "")
             case0 = {"a": r["a"], "b": r["b"], "ray": r["ray"]}
-            for name, mk in (("", lambda: g.Segment(a, b)), ("/reversed", lambda: g.Segment(b, a))):
+            mixed = lambda: g.Segment(np.array([list(r["a"]) + [1], [-2 * v for v in r["b"]] + [-2]]))  # noqa: E731
+            for name, mk in (("", lambda: g.Segment(a, b)), ("/reversed", lambda: g.Segment(b, a))) + \
+                    ((("/mixed-sign-representatives", mixed),) if not r["ray"] else ()):
                 try:
                     seg = mk()
                     got = np.asarray(seg.contains(g.PointCollection(qs)))
@@ -82,7 +84,9 @@ def replay(recs):
         alle = np.concatenate([exp, extra_e])
         alll = [LABELS[x] for x in labs] + ["off-plane"] * len(extra_q)
         case0 = {"poly": poly, "emb": d.get("emb") if dim == 3 else None}
-        classes = [("Polygon", lambda: g.Polygon(*verts))]
+        fac = [1, -1, 2, -3, 1, -2]
+        classes = [("Polygon", lambda: g.Polygon(*verts)),
+                   ("Polygon[mixed-sign-representatives]", lambda: g.Polygon(np.array([np.asarray(v.array) * f for v, f in zip(verts, fac)])))]
         if len(poly) == 3:
             classes.append(("Triangle", lambda: g.Triangle(*verts)))
         else:
